@@ -250,6 +250,11 @@ def c18_tracks(pi: int, o1: int, o2: int, vel: int, ch: int, bi: int, ntr: int, 
     rhythm = [4, 8, 8, 2]
     contents = [[[x], None, [x], [x]], [[y], [y], None, [y]], [None, [z], [z], None]][:ntr]
     ents = [[(v, c, None) for v, c in zip(rhythm, cs)] for cs in contents]
+    tempo_at = P.get("tempo_at")  # (track, entry, bpm): a tempo-changing container in one of the parallel bars
+    if tempo_at is not None and tempo_at[0] < ntr:
+        ti_, ei_, nb_ = tempo_at
+        v_, c_, _ = ents[ti_][ei_]
+        ents[ti_][ei_] = (v_, c_, nb_)
     tracks = []
     for i, e in enumerate(ents):
         ins = None
@@ -279,6 +284,27 @@ def c18_tracks(pi: int, o1: int, o2: int, vel: int, ch: int, bi: int, ntr: int, 
         if i == 0 and named:
             prog = REF_NAMES.index(INSTR_NAME) if INSTR_NAME in REF_NAMES else 1
         instr.append(("instr", chans[i], prog, 0))
+    if tempo_at is not None and tempo_at[0] < ntr:
+        # tempo model: from the changing entry on (and in every later bar) the new tempo applies
+        def par(bp):
+            ev = []
+            cur = bp
+            for kk in range(len(rhythm)):
+                for ent in ents:
+                    for nn in (sorted(ent[kk][1], key=_p) if ent[kk][1] else []):
+                        ev.append(("play", _p(nn), nn.channel, nn.velocity))
+                for ent in ents:
+                    if ent[kk][2] is not None:
+                        cur = ent[kk][2]
+                ev.append(("sleep", (60.0 / cur) * (4.0 / rhythm[kk])))
+                for ent in ents:
+                    for nn in (sorted(ent[kk][1], key=_p) if ent[kk][1] else []):
+                        ev.append(("stop", _p(nn), nn.channel))
+            return ev, cur
+        e1, b1 = par(bpm)
+        e2, b2 = par(b1)
+        exp = instr + e1 + e2
+        return r == {"bpm": b2} and _same_events(s.ev, exp) and _same_events(o.ev, exp) and _balanced(s.ev)
     exp = instr + _exp_parallel(ents, bpm) + _exp_parallel(ents, bpm)
     return r == {"bpm": bpm} and _same_events(s.ev, exp) and _same_events(o.ev, exp) and _balanced(s.ev)
 
@@ -325,6 +351,8 @@ def claims(tier):
     cl.append(Claim("tracks", c18_tracks, pre=[pre5, lambda bi, ntr: 0 <= bi < len(BPMS) and 1 <= ntr <= 3], timeout=1500 if q else 3000, bounds="play_Tracks with 1..3 parallel tracks of equal rhythm over two bars; MIDI (named / unnamed) and plain instruments; scalars symbolic"))
     for nm in ("Acoustic Grand Piano", "Clavi", "No Such Instrument"):
         cl.append(Claim("tracks[instr=%s]" % nm, c18_tracks, params={"instr": nm}, group="c18_tracks", pre=[pre5, lambda bi, ntr: bi == 0 and 1 <= ntr <= 2 and True, lambda pi: pi == 0], timeout=1500 if q else 3000, bounds="play_Tracks, first track's MIDI instrument named %r (program %s)" % (nm, REF_NAMES.index(nm) if nm in REF_NAMES else "1: unknown name")))
+    for ta in ((0, 2, 90), (1, 0, 45), (0, 3, 200)):
+        cl.append(Claim("tracks[tempo track %d entry %d]" % ta[:2], c18_tracks, params={"tempo_at": ta}, group="c18_tracks", pre=[pre5, lambda bi, ntr: 0 <= bi < 2 and 2 <= ntr <= 3, lambda pi: pi == 0], timeout=1500 if q else 3000, bounds="play_Tracks with 2..3 parallel tracks; a tempo-changing container (bpm %d) at entry %d of track %d (not the last track)" % (ta[2], ta[1], ta[0])))
     cl.append(Claim("composition", c18_tracks, params={"composition": True}, pre=[pre5, lambda bi, ntr: 0 <= bi < 2 and 1 <= ntr <= 3], timeout=1500 if q else 3000, bounds="play_Composition, as 'tracks'"))
     cl.append(Claim("control_change", c18_control_change, timeout=300, bounds="channel, control number, value: every integer (unbounded, symbolic)"))
     cl.append(Claim("cc_helpers", c18_cc_helpers, timeout=300, bounds="modulation / main_volume / pan: channel and value every integer"))
